@@ -142,7 +142,7 @@ Section Run.
   Proof.
     intro C. unfold dispatch. cbn [prober_handle pmon_step].
     pose proof C as (C1 & C2 & _). rewrite C2.
-    destruct (pb_confirmed (s_st s) || negb (m_response m)) eqn:E.
+    unfold prober_ignore_message in *. destruct (pb_confirmed (s_st s) || negb (m_response m)) eqn:E.
     - cbn [apply_effs]. rewrite sim_eta. cbn [forallb negb]. exists q. auto.
     - apply orb_false_iff in E as [Ec _].
       pose proof (on_records_ok rec0 base tail (s_now s) (m_records m) (s_tm s) (s_seq s) (s_st s) q) as R.
